@@ -11,6 +11,7 @@ import (
 	"text/template/parse"
 
 	"verif/checker/internal/core"
+	"verif/checker/internal/gen"
 	"verif/checker/internal/interp"
 	"verif/checker/internal/load"
 	"verif/checker/internal/skel"
@@ -178,6 +179,7 @@ func (c *Ctx) RunSkeletons(opt SkelOpts) {
 	run.Count("template_if_nodes", src.NodeCount["if"])
 	run.Count("template_range_nodes", src.NodeCount["range"])
 	lens, uerr := uniformity(src)
+	lens = append(lens, gen.HelperLengthConstants(c.Prog)...)
 	for _, e := range uerr {
 		run.Undecided("S-UNIFORM", e.key, src.Line(e.off), e.msg)
 	}
